@@ -6,9 +6,12 @@ package mitm
 // This file contains comments only and is compiled only with the build tag `verif`.
 
 // Thin contracts used by the proxy core (package martian).
+// TLSForHost builds a configuration of its own for every tunnel (checked frame: nothing of the shared Config is
+// written, in particular no certificate callback is cached that would keep the first tunnel's host name).
 //@ func (*Config).TLSForHost
 //@   serves C06
 //@   requires c != nil
+//@   modifies nothing
 //@   ensures result != nil
 // C03: a failed handshake with no callback registered (the default) must not take the process down: the callback is
 // only called when there is one.
@@ -56,8 +59,18 @@ package mitm
 //@ pred certsOK(c *Config) = c != nil && c.certs != nil && c.ca != nil && c.priv != nil && !c.certmu.wheld && c.certmu.rheld == 0 &&
 //@      (forall k string :: has(c.certs, k) ==> c.certs[k] != nil && allocated(c.certs[k]) && c.certs[k].gIssuedFor == k && c.certs[k].Leaf != nil && c.certs[k].PrivateKey == iface(c.priv))
 
+// validity window: now -/+ the configured validity (two clock readings, each shifted once)
+//@ ghost var lastAddD time.Duration
+//@ ghost var prevAddD time.Duration
+//@ ghost var lastAddRes time.Time
+//@ ghost var prevAddRes time.Time
+//@ extern func (time.Time).Add
+//@   modifies lastAddD, prevAddD, lastAddRes, prevAddRes
+//@   ensures prevAddD == old(lastAddD) && prevAddRes == old(lastAddRes) && lastAddD == d && lastAddRes == result
 //@ func (*Config).cert
 //@   serves C06
+//@   modifies lastAddD, prevAddD, lastAddRes, prevAddRes
+//@   at call 0 of CreateCertificate before assert[valid-from-now-minus-validity-to-now-plus-validity] tmpl.NotBefore == prevAddRes && (c.validity > -9223372036854775808 ==> prevAddD == 0 - c.validity) && tmpl.NotAfter == lastAddRes && lastAddD == c.validity
 //@   safe index
 //@   requires certsOK(c)
 //@   modifies c.certs[*], sync.RWMutex.wheld, sync.RWMutex.rheld, lastVerifyErr, lastVerifyLeaf, lastVerifyName, lastVerifyRoots, splitHost, splitErr, tls.Certificate.gIssuedFor
